@@ -405,7 +405,12 @@ impl Schema {
     pub fn target_fields(&self, sh: &Shape) -> (Vec<Field>, bool, bool) {
         match sh {
             Shape::Def(i) => {
-                let d = &self.defs[*i];
+                // a typedef (chain) of a struct-like has the fields of its target
+                let mut j = *i;
+                while let Kind::Typedef(Ty::Ref(k)) = &self.defs[j].kind {
+                    j = *k;
+                }
+                let d = &self.defs[j];
                 (d.fields.clone(), d.kind == Kind::Union, false)
             }
             Shape::Args(s, m) => (self.services[*s].methods[*m].args.clone(), false, false),
@@ -855,6 +860,8 @@ struct G<'a> {
     /// required self-reference has no finite value); recursion is introduced
     /// deliberately through optional fields and containers
     cur: Option<usize>,
+    /// nesting depth of the struct literal being generated
+    lit_depth: usize,
 }
 
 impl<'a> G<'a> {
@@ -920,6 +927,25 @@ impl<'a> G<'a> {
         self.scalar_ty(file)
     }
 
+    /// are all definitions the type names visible from `file`?
+    fn ty_visible(&self, file: usize, ty: &Ty) -> bool {
+        match ty {
+            Ty::List(t) | Ty::Set(t) => self.ty_visible(file, t),
+            Ty::Map(k, v) => self.ty_visible(file, k) && self.ty_visible(file, v),
+            Ty::Ref(d) => {
+                self.visible(file, *d)
+                    && match &self.s.defs[*d].kind {
+                        Kind::Typedef(t) => {
+                            let t = t.clone();
+                            self.ty_visible(file, &t)
+                        }
+                        _ => true,
+                    }
+            }
+            _ => true,
+        }
+    }
+
     fn default_for(&mut self, file: usize, ty: &Ty) -> Option<Lit> {
         let rt = self.s.resolve(ty).clone();
         Some(match rt {
@@ -953,6 +979,36 @@ impl<'a> G<'a> {
             Ty::Ref(d) => match &self.s.defs[d].kind {
                 Kind::Enum(ms) => {
                     if self.rng.chance(2, 3) { Lit::EnumMember(d, self.rng.usize_below(ms.len())) } else { Lit::Int(ms[self.rng.usize_below(ms.len())].1 as i64) }
+                }
+                // nested struct literal. Every inner field that has its own IDL
+                // default is named (what an unnamed one holds is not fixed by the
+                // property); the others are named at random. Names are the IDL
+                // spelling of the inner field.
+                Kind::Struct if Some(d) != self.cur && self.lit_depth < 2 && !self.s.defs[d].name.starts_with("K") => {
+                    let fields = self.s.defs[d].fields.clone();
+                    let mut fs = vec![];
+                    self.lit_depth += 1;
+                    let mut ok = true;
+                    for f in &fields {
+                        let must = f.default.is_some();
+                        if !(must || self.rng.chance(1, 2)) {
+                            continue;
+                        }
+                        let lit = if self.ty_visible(file, &f.ty) { self.default_for(file, &f.ty) } else { None };
+                        match lit {
+                            Some(l) => fs.push((f.name.clone(), l)),
+                            None if must => {
+                                ok = false;
+                                break;
+                            }
+                            None => {}
+                        }
+                    }
+                    self.lit_depth -= 1;
+                    if !ok {
+                        return None;
+                    }
+                    Lit::Struct(fs)
                 }
                 _ => return None,
             },
@@ -1040,7 +1096,13 @@ impl<'a> G<'a> {
                     _ => {}
                 }
             }
-            fs.push(Field { id, name: format!("f{}", i + 1), req, ty, default, annots });
+            // some names are not lower snake_case: the Rust identifier differs from the IDL spelling
+            let name = match self.rng.below(8) {
+                0 => format!("retryCount{}", i + 1),
+                1 => format!("UserName{}", i + 1),
+                _ => format!("f{}", i + 1),
+            };
+            fs.push(Field { id, name, req, ty, default, annots });
         }
         fs
     }
@@ -1049,7 +1111,7 @@ impl<'a> G<'a> {
 /// Generate a Thrift corpus. Deterministic in (`seed`, `profile`).
 pub fn generate(seed: u64, profile: &GenProfile) -> Schema {
     let mut rng = Rng::new(seed ^ 0x1D1_6E4);
-    let mut g = G { rng: &mut rng, s: Schema::default(), p: profile.clone(), cur: None };
+    let mut g = G { rng: &mut rng, s: Schema::default(), p: profile.clone(), cur: None, lit_depth: 0 };
     // files: c0 is the entry (services live there) and includes the others;
     // higher-numbered files are included by lower-numbered ones
     for i in 0..profile.files {
@@ -1148,26 +1210,101 @@ pub fn generate(seed: u64, profile: &GenProfile) -> Schema {
             }
         }
     }
-    // services in the entry file
+    // directed, in every corpus: alias chains (typedef of a typedef) ending in a
+    // scalar, a container, an enum and a struct, used in every requiredness,
+    // as container elements and as union variants
+    {
+        let file = 0usize;
+        let en = g.pick_def(file, |d| matches!(d.kind, Kind::Enum(_))).map(Ty::Ref).unwrap_or(Ty::I32);
+        let st = g.pick_def(file, |d| matches!(d.kind, Kind::Struct) && !d.name.starts_with("K")).map(Ty::Ref).unwrap_or(Ty::Str);
+        let ends = vec![Ty::I64, Ty::List(Box::new(Ty::Str)), en, st, Ty::Bool, Ty::Map(Box::new(Ty::I32), Box::new(Ty::Double))];
+        let mut tops = vec![];
+        for e in ends {
+            let a = g.s.defs.len();
+            g.s.defs.push(Def { file, name: format!("T{}", counters.3), kind: Kind::Typedef(e), fields: vec![], annots: vec![] });
+            counters.3 += 1;
+            let b = g.s.defs.len();
+            g.s.defs.push(Def { file, name: format!("T{}", counters.3), kind: Kind::Typedef(Ty::Ref(a)), fields: vec![], annots: vec![] });
+            counters.3 += 1;
+            // a third level for the first two
+            if tops.len() < 2 {
+                let c = g.s.defs.len();
+                g.s.defs.push(Def { file, name: format!("T{}", counters.3), kind: Kind::Typedef(Ty::Ref(b)), fields: vec![], annots: vec![] });
+                counters.3 += 1;
+                tops.push(c);
+            } else {
+                tops.push(b);
+            }
+        }
+        let reqs = [Req::Default, Req::Optional, Req::Required];
+        let mut fs = vec![];
+        let mut id = 0i16;
+        for (k, t) in tops.iter().enumerate() {
+            for (r, req) in reqs.iter().enumerate() {
+                if (k + r) % 2 == 1 && k > 1 {
+                    continue;
+                }
+                id += 1;
+                // a struct-typed required/default field is fine here: the
+                // target struct is already complete and cannot refer back
+                fs.push(Field { id, name: format!("f{}", id), req: *req, ty: Ty::Ref(*t), default: None, annots: vec![] });
+            }
+        }
+        id += 1;
+        fs.push(Field { id, name: format!("f{}", id), req: Req::Default, ty: Ty::List(Box::new(Ty::Ref(tops[0]))), default: None, annots: vec![] });
+        id += 1;
+        fs.push(Field { id, name: format!("f{}", id), req: Req::Optional, ty: Ty::Map(Box::new(Ty::Ref(tops[0])), Box::new(Ty::Ref(tops[2]))), default: None, annots: vec![] });
+        g.s.defs.push(Def { file, name: format!("S{}", counters.0), kind: Kind::Struct, fields: fs, annots: vec![] });
+        counters.0 += 1;
+        let ufs: Vec<Field> = tops
+            .iter()
+            .enumerate()
+            .map(|(k, t)| Field { id: k as i16 + 1, name: format!("f{}", k + 1), req: Req::Default, ty: Ty::Ref(*t), default: None, annots: vec![] })
+            .collect();
+        g.s.defs.push(Def { file, name: format!("U{}", counters.1), kind: Kind::Union, fields: ufs, annots: vec![] });
+        counters.1 += 1;
+    }
+    // services in the entry file. Struct / exception types named directly as an
+    // argument, return or throws type get a dedicated decoder variant from
+    // pilota-build (see known finding "arg-type decode takes the rest of the
+    // buffer"); keep that set small (two structs, one exception per corpus) so
+    // that most of the corpus stays outside it
+    let mut arg_pool: Vec<usize> = vec![];
+    let mut exc_pool: Option<usize> = None;
+    fn svc_ty(g: &mut G, pool: &mut Vec<usize>) -> Ty {
+        let t = g.any_ty(0, 2, true);
+        if let Ty::Ref(d) = t {
+            if matches!(g.s.defs[d].kind, Kind::Struct | Kind::Exception) {
+                if !pool.contains(&d) && pool.len() < 2 {
+                    pool.push(d);
+                    return Ty::Ref(d);
+                }
+                let k = g.rng.usize_below(pool.len());
+                return Ty::Ref(pool[k]);
+            }
+        }
+        t
+    }
     for si in 0..profile.services {
         let nm = 1 + g.rng.usize_below(5);
         let mut methods = vec![];
         for mi in 0..nm {
             let oneway = g.rng.chance(1, 6);
-            let ret = if oneway || g.rng.chance(1, 4) { None } else { Some(g.any_ty(0, 2, true)) };
+            let ret = if oneway || g.rng.chance(1, 4) { None } else { Some(svc_ty(&mut g, &mut arg_pool)) };
             let na = g.rng.usize_below(4);
             let mut args = vec![];
             for a in 0..na {
                 let req = if g.rng.chance(1, 4) { Req::Optional } else { Req::Required };
-                args.push(Field { id: (a + 1) as i16, name: format!("a{}", a + 1), req, ty: g.any_ty(0, 2, true), default: None, annots: vec![] });
+                args.push(Field { id: (a + 1) as i16, name: format!("a{}", a + 1), req, ty: svc_ty(&mut g, &mut arg_pool), default: None, annots: vec![] });
             }
             let mut throws = vec![];
-            if !oneway && g.rng.chance(1, 2) {
-                let nt = 1 + g.rng.usize_below(2);
-                for t in 0..nt {
-                    if let Some(x) = g.pick_def(0, |d| d.kind == Kind::Exception) {
-                        throws.push(Field { id: (t + 1) as i16, name: format!("x{}", t + 1), req: Req::Default, ty: Ty::Ref(x), default: None, annots: vec![] });
-                    }
+            // the first method that can throw does (every corpus exercises a throws clause)
+            if !oneway && (g.rng.chance(1, 2) || exc_pool.is_none()) {
+                if exc_pool.is_none() {
+                    exc_pool = g.pick_def(0, |d| d.kind == Kind::Exception);
+                }
+                if let Some(x) = exc_pool {
+                    throws.push(Field { id: 1, name: "x1".to_string(), req: Req::Default, ty: Ty::Ref(x), default: None, annots: vec![] });
                 }
             }
             methods.push(Method { name: format!("m{}", mi + 1), oneway, ret, args, throws });
